@@ -41,6 +41,7 @@ TRUSTED_BASE = [
     "hand-written executable Lean model of the anchored functions (modelled, not verified): tied to /repo on every run by the correspondence harness below",
     "correspondence harness (Python, calls the real FlowCal code in-process, pipes the same cases to the compiled Lean driver, compares canonicalised outputs) and the model-free property oracle",
     "extract/facts.py (ast-based source-facts extractor regenerating lean/FlowCalModel/Generated.lean from /repo on every run)",
+    "extract/exprs.py (ast-to-Lean formula translator regenerating lean/FlowCalModel/GeneratedExpr.lean from /repo on every run: amplifier laws, bead model, logicle function, ellipse form)",
     "NumPy/SciPy/scikit-learn/pandas/matplotlib/CPython numeric and I/O kernels are assumed, not proved (IEEE-754 arithmetic, libm pow/exp/log, memmap, pickle)",
 ]
 
@@ -129,6 +130,16 @@ class LeanStage:
             self.facts = json.load(open(os.path.join(ROOT, 'extract', 'facts.json')))
         except Exception:
             self.facts = {}
+        # formula translator: source expressions -> lean/FlowCalModel/GeneratedExpr.lean
+        rc, out = sh([sys.executable, os.path.join(ROOT, 'extract', 'exprs.py')])
+        self.log += out
+        if rc != 0:
+            self.broken.append('extract/exprs.py failed: ' + out[-400:])
+            return
+        try:
+            self.exprs = json.load(open(os.path.join(ROOT, 'extract', 'exprs.json')))
+        except Exception:
+            self.exprs = {}
         # forbidden constructs
         for f in lean_sources():
             src = strip_lean_comments(open(f).read())
@@ -163,7 +174,9 @@ class LeanStage:
         if rc != 0:
             errs = re.findall(r'error: ([^\n]*)', out)
             names = re.findall(r"(?:theorem|lemma|example)\s+([A-Za-z0-9_.']+)", out)
-            self.broken.append('lake build failed for %s: %s' % (mod, '; '.join(errs[:6]) or out[-600:]))
+            miss = (getattr(self, 'exprs', {}) or {}).get('missing')
+            self.broken.append('lake build failed for %s: %s%s' % (mod, '; '.join(errs[:6]) or out[-600:],
+                                                                    ' [formulas the translator could not find in the source: %s]' % miss if miss else ''))
             return
         # axiom audit
         audit = os.path.join(LEAN, '.lake', 'Audit_%s.lean' % self.pid)
